@@ -25,7 +25,7 @@ Ev(b) == b = TRUE
 Reading(t) == pc[t] \in {"start", "g0", "fb", "lv1", "permld", "lv2", "d_lv", "d_fc", "fb1", "g_val", "g_fc", "r_fc0", "lock", "done",
                           "s_enter", "s_next", "s_perm", "s_val", "s_chk", "l_enter", "l_root1", "l_root2", "l_fb", "l_senter", "l_next", "l_perm", "l_val", "l_chk",
                           "l_rec", "l_fin", "s_lfail", "s_rec", "s_fin", "s_ret",
-                          "io_lv1", "io_p", "io_lv2", "io_stack", "in_top", "in_ent", "ck1", "ck2", "ck3", "ck4", "in_child", "in_cfb", "in_push", "ir_fb", "ir_root", "ir_up", "ir_find", "ir_arr", "i_ret"}
+                          "io_lv1", "io_p", "io_lv2", "io_stack", "in_top", "in_ent", "ck1", "ck2", "ck3", "ck4", "in_child", "in_cfb", "in_push", "ir_fb", "ir_root", "ir_isb", "ir_up", "ir_find", "ir_arr", "i_ret"}
 Owner(t) == ~Reading(t)
 Private(n) == n \in {1, 2} /\ nd[n] = EmptyB
 TInit == Init /\ l = 2 /\ TLCSet(1, 2)
@@ -47,7 +47,8 @@ TVerLoad == /\ Consume /\ E.e = "ver_load"
             /\ LET t == E.t IN
                IF Private(E.n) THEN Stutter
                ELSE /\ Ev(nd[E.n].ver = LVer(E))
-                    /\ IF pc[t] = "l_root1" THEN LRoot1(t) /\ Ev(loc[t].child = E.n)
+                    /\ IF pc[t] = "ir_isb" THEN IRIsB(t) /\ Ev(Top(loc[t]).root = E.n)
+                       ELSE IF pc[t] = "l_root1" THEN LRoot1(t) /\ Ev(loc[t].child = E.n)
                        ELSE IF pc[t] = "l_root2" THEN LRoot2(t) /\ Ev(loc[t].child = E.n)
                        ELSE IF Owner(t) \/ pc[t] = "lock" \/ ~Stable(LVer(E)) THEN Stutter
                        ELSE \/ (FB(t) /\ Ev(E.n = 0))
